@@ -60,6 +60,14 @@ Theorem C18_outside_irrelevant : forall root fs1 fs2 fuel p,
 Proof. exact root_open_indep. Qed.
 Print Assumptions C18_outside_irrelevant.
 
+(* nested SetRoot calls can only narrow: a call succeeds only for a path under the current root, so after any sequence
+   of successful calls whatever is opened lies under the FIRST root as well *)
+Theorem C18_nested_roots : forall fs first ps final fuel p d,
+  set_roots first ps = Some final -> root_open fuel fs final p = Ok d ->
+  exists q, is_prefix first q = true /\ tfs_lookup fs q = Some (TFile (Ok d)).
+Proof. exact nested_roots_confine. Qed.
+Print Assumptions C18_nested_roots.
+
 (* "under" is component-wise: a sibling directory whose name extends the root's is outside; and a relative link from
    inside the root to it is an escape *)
 Example C18_sibling_example :
